@@ -531,11 +531,11 @@ pub fn gen_cfg(family: &str, rng: &mut Rng) -> Cfg {
     cfg.set("overflow", 0);
     cfg.set("prompt", if rng.chance(1, 3) { 1 } else { 0 });
     if rng.chance(1, 6) {
-        let t = *rng.pick(&[60u64, 16_380, (1 << 30) - 40, (1u64 << 62) - 100_000]);
+        let t = *rng.pick(&[60u64, 16_380, (1 << 30) - 40, (1u64 << 62) - 100_000_000]);
         cfg.set("tele_seq", t);
     }
     if rng.chance(1, 6) {
-        let t = *rng.pick(&[60u64, 16_380, (1 << 30) - 40, (1u64 << 62) - 100_000]);
+        let t = *rng.pick(&[60u64, 16_380, (1 << 30) - 40, (1u64 << 62) - 100_000_000]);
         cfg.set("tele_mid", t);
     }
     match fam {
